@@ -149,7 +149,9 @@ func (v *p2variant) apply(m c19Mut) {
 	case "main.slice_size_1pair":
 		v.sliceSize = valueOf(m.Value, 64, 0) // f+4 -> 68: larger than every file
 		for _, f := range v.files {
-			f.pairs = f.pairs[:1]
+			if len(f.pairs) > 1 {
+				f.pairs = f.pairs[:1]
+			}
 		}
 	case "main.nrecv":
 		v.nrecv = uint32(valueOf(m.Value, uint64(len(v.files)), 0))
@@ -160,9 +162,13 @@ func (v *p2variant) apply(m c19Mut) {
 		case "0":
 			f0.pairs = nil
 		case "f-1":
-			f0.pairs = f0.pairs[:len(f0.pairs)-1]
+			if len(f0.pairs) > 0 {
+				f0.pairs = f0.pairs[:len(f0.pairs)-1]
+			}
 		case "f+1":
-			f0.pairs = append(f0.pairs, f0.pairs[0])
+			if len(f0.pairs) > 0 {
+				f0.pairs = append(f0.pairs, f0.pairs[0])
+			}
 		}
 	case "recv.exp":
 		v.recvExp[0] = uint32(valueOf(m.Value, 0, 0))
@@ -606,7 +612,8 @@ func runC19Case(dir string, cs c19Case, prot map[string][]byte, a1 *arch1) (trac
 		ro := runRepair(index, 2, false, false, nil)
 		verr, rerr, vtext, rtext, needed, repaired = vo.Err, ro.Err, vo.ErrText+vo.Panic, ro.ErrText+ro.Panic, vo.Needed, ro.Repaired
 	} else {
-		vo := runVerify1(index, true, false, nil)
+		// the full parity check (-a) is requested only when a parity volume exists to check against
+		vo := runVerify1(index, nblocks > 0, false, nil)
 		ro := runRepair1(index, false, false, nil)
 		verr, rerr, vtext, rtext, needed, repaired = vo.Err, ro.Err, vo.ErrText+vo.Panic, ro.ErrText+ro.Panic, vo.Needed, ro.Repaired
 	}
@@ -710,6 +717,9 @@ func runC19(args []string) error {
 	parts, res, err := superviseBatch("c19", []string{"-in", c.in, "-dir", c.dir, "-seed", fmt.Sprint(c.seed), "-tier", c.tier}, len(cases), 20*time.Second, 3072, c.out+".part")
 	if err != nil {
 		return err
+	}
+	if len(res.harness) > 0 {
+		return fmt.Errorf("batch worker died in harness code (not in the code under test): %v", res.harness)
 	}
 	lg, err := tracelog.Create(c.out)
 	if err != nil {
